@@ -47,6 +47,9 @@ func NewParser(srcPath, dstPath string) (*Parser, error) {
 	}
 
 	dstStat, _ := os.Stat(dstPath)
+	if dstStat != nil && os.SameFile(srcStat, dstStat) {
+		return nil, logger.Errorf("%v: the output path is the setup file itself", dstPath)
+	}
 	var parseErr error
 	cfg := &packages.Config{
 		Mode:       parserLoadMode,
